@@ -147,9 +147,19 @@ def apply_op(bec, label, nfw, gamma=None):
         else:
             f.components.append(comp)
     elif name == "WriteRead":
-        s = io.StringIO()
-        f.write_file(s, KEY)
-        bec.bf3file = Bf3File.read_file(io.StringIO(s.getvalue()), True, KEY)
+        if (len(f.components) + nfw) % 2:
+            # through a path that already holds a longer file (an older, bigger version of the package)
+            import tempfile
+            with tempfile.TemporaryDirectory(prefix="verif_c11_") as td:
+                pth = os.path.join(td, "p.bf3")
+                with open(pth, "w") as fh:
+                    fh.write("Old: file\n\n" + ("DEADBEEF" * 10 + "\n") * 60)
+                f.write_file(pth, KEY)
+                bec.bf3file = Bf3File.read_file(pth, True, KEY)
+        else:
+            s = io.StringIO()
+            f.write_file(s, KEY)
+            bec.bf3file = Bf3File.read_file(io.StringIO(s.getvalue()), True, KEY)
     elif name == "FailedWrite":
         for bad in ([], ()):
             try:
